@@ -120,7 +120,7 @@ def run(facts, rep, tier):
                       "PartialEq+Eq+Hash over exactly {op, arguments_types}; CustomOperation eq/hash delegate to the body")
     impls = facts.impls_of_trait(TRAIT)
     impls = [im for im in impls if im["crate"] == "ciphercore_base"]
-    rep.floor("C08.N", "impl CustomOperationBody", len(impls), 46)
+    rep.floor("C08.N", "impl CustomOperationBody", len(impls), 40)
     sigs = {}
     nleaves = 0
     for im in sorted(impls, key=lambda x: x["self"]):
